@@ -1,7 +1,7 @@
 from props import LEAN_TB, CORR_TB, TRANS_TB
 
 PROP = dict(
-    lean=["Tcell.Props.C18"], namespaces=["Tcell.Props.C18"], engines=["sim"],
+    lean=["Tcell.Props.C18"], namespaces=["Tcell.Props.C18", "Tcell.SimL"], engines=["sim"],
     trusted_base=[LEAN_TB, CORR_TB, TRANS_TB,
                   "external charset encoders/decoders are parameters (`enc`, `dec`); the codec laws `CharLaw` behind inject_bytes_text are hypotheses, exercised by the harness on every multi-byte BMP character of 12 charsets (thorough) through the real decoders",
                   "the event channel is modelled as a FIFO list; a post on a full queue (capacity 10) is a precondition violation, the harness keeps a poller running",
@@ -13,6 +13,6 @@ PROP = dict(
 )
 META = dict(
     technique="Lean 4 proof about a model of simulation.go over the C08 buffer, generic in encoder/decoder + differential correspondence of histories on NewSimulationScreen + shadow oracle of what the application set",
-    text="Tcell.Props.C18 proves: what a drawn cell reports (runes, resolved style, blank for a wide rune in the last column, Bytes) and that no other cell changes; that the repaired Bytes rules coincide with the real screen's encodeCell (counterexample for the pinned rules); SetSize overlap and (repaired) resize event, with the proof that the pinned SetSize never produces one; the cursor query; FIFO delivery of injected keys/mouse; and, under explicit codec laws, that any valid text injected with the repaired InjectKeyBytes yields one KeyRune per character in order and true (counterexamples for the pinned loop: last non-ASCII character dropped, legacy multi-byte characters consumed silently). The full after-Show invariant over draw histories is only proved per cell (_partial) and is refuted on the pinned tree by last_column_stale; the harness checks it on the real code.",
-    note="Trusted: Lean kernel, sampled correspondence, codec laws as validated hypotheses. Open findings on the pinned tree: inject-last-multibyte, inject-multibyte-dropped, setsize-no-resize-event, sim-last-column-stale, sim-comb-fallback-not-elided.",
+    text="Tcell.Props.C18 proves: what a drawn cell reports (runes, resolved style, blank for a wide rune in the last column, Bytes) and that no other cell changes; that the repaired Bytes rules coincide with the real screen's encodeCell (counterexample for the pinned rules); SetSize overlap and (repaired) resize event, with the proof that the pinned SetSize never produces one; the cursor query; FIFO delivery of injected keys/mouse; and, under explicit codec laws, that any valid text injected with the repaired InjectKeyBytes yields one KeyRune per character in order and true (counterexamples for the pinned loop: last non-ASCII character dropped, legacy multi-byte characters consumed silently). The full after-Show invariant is proved over draw histories (sim_show_faithful: after ANY history of SetContent/Fill/LockRegion steps/Show/Sync/SetSize/cursor/inject operations from Init, every in-range unlocked clean cell's reported cell equals render of its logical content; sim_shown_cells_faithful: after Show this holds for every position the draw walk stops at, i.e. every cell not hidden behind a wide rune; sim_show_frame) by induction reusing the C08 specification ghost, for every variant with the last-column (829ffac) and SetSize (3535525) fixes — the variant of the current tree; it is refuted for the pinned variant by last_column_stale. Hypotheses: RwOk (rune widths 0..2, NUL 0, blank 1), Fill runes one column wide (API contract), screen style and fallback map fixed along the history (SetStyle/RegisterRuneFallback are not retroactive: setStyle_not_retroactive).",
+    note="Trusted: Lean kernel, sampled correspondence, codec laws as validated hypotheses. Former findings, all fixed in /repo (7f13d60, 3535525, 829ffac, 56f48b2): inject-last-multibyte, inject-multibyte-dropped, setsize-no-resize-event, sim-last-column-stale, sim-comb-fallback-not-elided.",
 )
